@@ -21,6 +21,8 @@ def run(rep):
     rep.guard(f7, rep, w)
     rep.guard(f8, rep, w)
     rep.guard(f9, rep, w)
+    rep.guard(f10, rep, w)
+    rep.guard(c01.r1, rep, w)     # a suspended fiber keeps its own state: everything it holds (stack, frames, the caller link, a return parked behind a finally) is traced, unconditionally, while it waits
     import c17
     rep.guard(c17.l4, rep, w)     # the site of an exception in flight is recorded in the fiber it is in flight in (ObjFiber.error_ip): kept VM-wide, a second fiber's error
     rep.guard(c17.l10, rep, w, 'C09')   # ... overwrites or inherits it across a switch
@@ -462,3 +464,41 @@ def f9(rep, w, prop='C09'):
         fields = sorted(n for (o, n) in rd if o == FIB)
         r.check(frames in fields, 'ObjFiber::%s reads the frame list' % nm, 'ObjFiber::%s decides from %s without looking at the frame list: after an uncaught error (reset_stack empties '
                 'stack and frames alike) a dead fiber can pass for a new one, or the two predicates can both hold' % (nm, fields), g.loc())
+
+
+def f10(rep, w):
+    """the link to the fiber that is waiting for this one is the state of the *current* switch, not of the first: every switch into a fiber
+    writes the link (from the fiber that was active), every switch out of it clears it - on every path that completes the switch. A link that is
+    written only when empty, or left behind by a yield, makes a fiber resumed by someone else hand its next value to its first caller."""
+    r = rep.rule('F10', 'load_fiber writes the entered fiber\'s caller link, and unload_fiber clears the left fiber\'s, on every path that completes the switch', floor=2)
+    import roles
+    for nm, what in (('load_fiber', 'written'), ('unload_fiber', 'cleared')):
+        f = w.require_fn('yarel::vm::Vm::' + nm, 'C09')
+        stores = set()
+        for bi in f.normal_blocks():
+            for s_ in f.blocks[bi]['s']:
+                d = s_.get('d') or {}
+                if d.get('p') and isinstance(d['p'][-1], dict) and d['p'][-1].get('n') == 'caller':
+                    stores.add(bi)
+        # a store made through a method of the fiber (set_caller(..) / take()) counts as well
+        for bi, t in f.calls():
+            g = w.fns.get(callee_name(t) or '')
+            if g is not None and g.path.startswith('yarel::object::ObjFiber::'):
+                if any((s2.get('d') or {}).get('p') and isinstance(s2['d']['p'][-1], dict) and s2['d']['p'][-1].get('n') == 'caller' for b2 in g.blocks for s2 in b2['s']):
+                    stores.add(bi)
+            n_ = strip_generics(callee_name(t) or '')
+            if n_.endswith(('Option::take', 'Option::replace', 'mem::take', 'mem::replace')) and t['args']:
+                pl = op_place(t['args'][0])
+                org = origins(f)
+                if pl is not None and ('caller' in operand_fields(f, org, t['args'][0])):
+                    stores.add(bi)
+        errs = set()
+        for bi in f.normal_blocks():
+            for s_ in f.blocks[bi]['s']:
+                rr = s_.get('r', {})
+                if (s_.get('d') or {}).get('l') == 0 and rr.get('rv') == 'agg' and rr.get('v') == 'Err':
+                    errs.add(bi)
+        ok = bool(stores) and c01.all_paths_hit(f, None, stores | errs)
+        r.check(ok, '%s: the caller link is %s on every completed switch' % (nm, what),
+                '%s can complete a switch without the caller link being %s (stores in blocks %s): the link then describes an earlier switch, and the next yield / return of '
+                'that fiber goes to the wrong fiber' % (nm, what, sorted(stores)), f.loc())
